@@ -68,3 +68,12 @@ extern "C" void verif_jit_run(void* jit, void* reg, void* memregs, uint8_t* scra
 	_mm_setcsr(saved);
 }
 extern "C" void verif_jit_free(void* jit) { delete (JitCompilerX86*)jit; }
+
+#include "blake2/blake2.h"
+#include <cstddef>
+extern "C" void verif_blake_layout(int* o) {
+	o[0] = offsetof(blake2b_state, h); o[1] = offsetof(blake2b_state, t); o[2] = offsetof(blake2b_state, f); o[3] = offsetof(blake2b_state, buf);
+	o[4] = offsetof(blake2b_state, buflen); o[5] = offsetof(blake2b_state, outlen); o[6] = offsetof(blake2b_state, last_node); o[7] = sizeof(blake2b_state);
+}
+extern "C" int verif_blake_update(void* S, const void* in, size_t n) { return blake2b_update((blake2b_state*)S, in, n); }
+extern "C" int verif_blake_final(void* S, void* out, size_t n) { return blake2b_final((blake2b_state*)S, out, n); }
